@@ -77,13 +77,32 @@ fn append_trailing_statement_semicolon(
     docs: &mut Vec<DocIR>,
     node: &LuaSyntaxNode,
 ) {
-    if !ctx.config.output.preserve_statement_semicolon {
-        return;
-    }
-
     let Some(semicolon) = trailing_statement_semicolon_token(node) else {
         return;
     };
+
+    // `a = b; (f)()` — without the `;` the next statement would be parsed as a call on `b`.
+    let next_starts_with_paren = {
+        let mut next = semicolon.next_token();
+        while let Some(token) = &next {
+            match token.kind().to_token() {
+                LuaTokenKind::TkWhitespace
+                | LuaTokenKind::TkEndOfLine
+                | LuaTokenKind::TkSemicolon => next = token.next_token(),
+                _ if token
+                    .parent_ancestors()
+                    .any(|n| n.kind() == LuaKind::Syntax(LuaSyntaxKind::Comment)) =>
+                {
+                    next = token.next_token()
+                }
+                _ => break,
+            }
+        }
+        next.is_some_and(|token| token.kind().to_token() == LuaTokenKind::TkLeftParen)
+    };
+    if !ctx.config.output.preserve_statement_semicolon && !next_starts_with_paren {
+        return;
+    }
 
     docs.extend(token_left_spacing_docs(plan, Some(&semicolon)));
     docs.push(ir::source_token(semicolon));
